@@ -15,9 +15,9 @@
      is_reference m n E    E is THE strictly sorted list (secondary key under the key order, then escaped
                            primary key bytewise) of the pairs (skey, pk) such that pk declares {n, skey} *)
 From Coq Require Import List NArith ZArith Bool Sorting.Sorted.
-From Oxia.KeyOrder Require Import Model.
+From Oxia.KeyOrder Require Import Model Proofs.
 From Oxia.Db Require Import Types Bytes Escape Keys Kv Sessions Indexes Write Read KvProofs Proofs_C12 IndexReads
-     C15_Layout C15_Inv C15_Reads Proofs_C15 C15_Fresh.
+     C15_Layout C15_Inv C15_Reads Proofs_C15 C15_Fresh Validate C15_Validated.
 Import ListNotations.
 
 (* The key layout determines (index name, secondary key, primary key) ... *)
@@ -33,7 +33,10 @@ Theorem c15_layout_parse : forall pk si,
 Proof. exact parse_index_key_ok. Qed.
 Print Assumptions c15_layout_parse.
 
-(* ... and it fails outside that alphabet (nothing in the server validates index names / secondary keys):
+(* ... and it fails outside that alphabet.  These are statements about UNVALIDATED declarations: since the repair
+   O-45 the leader's validation (server/write_validation.go, Db/Validate.v) refuses exactly the declarations
+   outside the alphabet (c15_validation_is_the_alphabet), so they cannot reach the log any more; data written
+   before the repair may still hold them:
    a '/' in the name makes two (name, skey) pairs share one key; a "\x01" in the secondary key makes the
    parser return another pair; a "\x00" breaks the order embedding used by list / range-scan. *)
 Theorem c15_layout_ambiguous_refuted : exists pk si si', si <> si' /\ index_key pk si = index_key pk si'.
@@ -68,6 +71,25 @@ Theorem c15_admissible_histories_suffice : forall cfg ops,
   Forall op_adm ops -> run_ok cfg init_state ops.
 Proof. exact run_adm_ok. Qed.
 Print Assumptions c15_admissible_histories_suffice.
+
+(* What can reach the log.  The validation accepts a declaration iff it is in the alphabet of the theorems; a
+   request accepted by the validation, the session manager's session-creation put and its closing request
+   (session.delete(): close and expiry) are admissible; hence every history of logged requests is a [run_ok]
+   history, and all theorems of this file hold for every input that can reach the log (keys being byte strings). *)
+Theorem c15_validation_is_the_alphabet : forall si, validate_sindex si = true <-> si_ok si.
+Proof. exact validate_sindex_iff. Qed.
+Print Assumptions c15_validation_is_the_alphabet.
+
+Theorem c15_validated_request_admissible : forall req,
+  validate_request req = true ->
+  Forall (fun p => p_indexes p <> [] -> is_bytes (p_key p)) (w_puts req) -> c15_request req.
+Proof. exact validated_request_admissible. Qed.
+Print Assumptions c15_validated_request_admissible.
+
+Theorem c15_logged_histories_admissible : forall cfg ops,
+  Forall logged_op ops -> run_ok cfg init_state ops.
+Proof. exact logged_histories_admissible. Qed.
+Print Assumptions c15_logged_histories_admissible.
 
 (* the invariant behind it is preserved by every admissible request from ANY state that satisfies it *)
 Theorem c15_mirror_preserved : forall cfg st req offset ts,
